@@ -262,7 +262,9 @@ class _DependencyProcessor:
             return (
                 states
                 and not self.prop._is_self_referential
-                and self.mapper in uowcommit.mappers
+                and not uowcommit.mappers.keys().isdisjoint(
+                    self.mapper.self_and_descendants
+                )
             )
 
     def _verify_canload(self, state):
